@@ -335,7 +335,10 @@ pub const SIZES: [usize; 22] = [
 
 /// An even shard size; small index = simple.
 pub fn gen_bytes(ch: &mut Chooser, max: usize) -> usize {
-    let b = if max >= 322 && ch.chance("bytes.long", 1, 12) {
+    let b = if max >= 322 && ch.chance("bytes.huge", 1, 40) {
+        // page-sized shards: multiples of 2048 / 4096 and their neighbours
+        [2048usize, 4096, 8192, 4098, 4094, 4160, 6144][ch.pick_usize("bytes.hugeidx", 7)]
+    } else if max >= 322 && ch.chance("bytes.long", 1, 12) {
         // many blocks (up to 24) with or without a partial last block
         64 * (6 + ch.pick_usize("bytes.blocks", 19)) + [0usize, 2, 30, 34, 62][ch.pick_usize("bytes.tail", 5)]
     } else if ch.chance("bytes.random", 1, 4) {
